@@ -6,13 +6,27 @@ from lib import Result, model_call, run_sharded, e_fmt, e_f64, Reader
 
 RULE = ('pairs of formats with n_word<=24 (any signedness mix, n_frac -1..n_word+1) with values chosen adjacent to each other across the two formats (equal, one LSB apart, at the bounds), '
         'Fxp vs Fxp (scalars and arrays) and Fxp vs plain number (int and float); conversions get_val / astype(float) / float() / astype(int) / int() / bool() / raw() / uraw() for every code of every '
-        'format with n_word<=6 (quick) / <=8 (thorough) and n_frac -1..n_word+1, plus random wider formats. The six relations and the conversions are evaluated with exact rationals on the implementation output and '
+        'format with n_word<=6 (quick) / <=8 (thorough) and n_frac -1..n_word+1, plus random wider formats; the left object is reached by four histories (raw constructor; built from integers, resized, then written raw or through equal(); like= an integer object with n_frac=). The six relations and the conversions are evaluated with exact rationals on the implementation output and '
         'compared with the model. Non-trivial = the two values differ by at most 2 LSB of the finer format (comparisons) / the code is non-zero (conversions); distinct by full input.')
 ASSUMPTIONS = []
 OPS = ['<', '<=', '==', '!=', '>', '>=']
 
 def pyop(op, a, b):
     return {'<': a < b, '<=': a <= b, '==': a == b, '!=': a != b, '>': a > b, '>=': a >= b}[op]
+
+BUILDS = ['raw', 'int_resize_raw', 'int_resize_equal', 'like_int']
+def build(fx, np, s, nw, nf, codes, shape=None, how='raw'):
+    """an object holding the given raw codes, reached through different histories (the hidden value type differs: an object built
+    from integers keeps an integer value type until a write resets it)"""
+    if how == 'raw' or nw >= 64: return A.mk(fx, np, s, nw, nf, codes, shape=shape)
+    zero = 0 if shape is None else np.zeros(shape, dtype=np.int64)
+    if how == 'like_int':
+        tmpl = fx.Fxp(zero, s, nw, 0)
+        return fx.Fxp(codes if shape is None else np.array(codes).reshape(shape), like=tmpl, n_frac=nf, raw=True)
+    x = fx.Fxp(zero, s, nw, 0); x.resize(s, nw, nf)
+    if how == 'int_resize_raw': x.set_val(codes if shape is None else np.array(codes).reshape(shape), raw=True)
+    else: x.equal(A.mk(fx, np, s, nw, nf, codes, shape=shape))
+    return x
 
 def cmp_cases(rng, n):
     cases = []
@@ -28,7 +42,7 @@ def cmp_cases(rng, n):
         cy = rng.choice([math.floor(ty), math.ceil(ty), math.floor(ty) - 1, math.ceil(ty) + 1, ly, hy, rng.randint(ly, hy)])
         cy = max(ly, min(hy, cy))
         num = rng.choice([float(xv), float(xv) + float(Fraction(2) ** (-fxm[2])), float(xv) - 0.5, int(math.floor(xv)), int(math.floor(xv)) + 1, 0, rng.uniform(-4, 4)])
-        cases.append({'x': list(fxm), 'cx': cx, 'y': list(fym), 'cy': cy, 'num': num, 'array': rng.random() < 0.25})
+        cases.append({'x': list(fxm), 'cx': cx, 'y': list(fym), 'cy': cy, 'num': num, 'array': rng.random() < 0.25, 'build': rng.choice(BUILDS)})
     return cases
 
 def run_cmp(cases, res):
@@ -38,11 +52,11 @@ def run_cmp(cases, res):
         fxm, fym = tuple(c['x']), tuple(c['y'])
         try:
             if c['array']:
-                x = A.mk(fx, np, *fxm, [c['cx'], c['cx']], shape=(2,)); y = A.mk(fx, np, *fym, [c['cy'], c['cy']], shape=(2,))
+                x = build(fx, np, *fxm, [c['cx'], c['cx']], shape=(2,), how=c.get('build', 'raw')); y = A.mk(fx, np, *fym, [c['cy'], c['cy']], shape=(2,))
                 got = [bool(np.asarray(r).reshape(-1)[1]) for r in (x < y, x <= y, x == y, x != y, x > y, x >= y)]
                 gotn = [bool(np.asarray(r).reshape(-1)[0]) for r in (x < c['num'], x <= c['num'], x == c['num'], x != c['num'], x > c['num'], x >= c['num'])]
             else:
-                x = A.mk(fx, np, *fxm, c['cx']); y = A.mk(fx, np, *fym, c['cy'])
+                x = build(fx, np, *fxm, c['cx'], how=c.get('build', 'raw')); y = A.mk(fx, np, *fym, c['cy'])
                 got = [bool(r) for r in (x < y, x <= y, x == y, x != y, x > y, x >= y)]
                 gotn = [bool(r) for r in (x < c['num'], x <= c['num'], x == c['num'], x != c['num'], x > c['num'], x >= c['num'])]
             # the plain number on the LEFT (Python and NumPy numbers): k < x is x > k, etc.
@@ -80,10 +94,10 @@ def conv_cases(rng, tier, shard, nshards):
     for idx, (s, nw, nf) in enumerate(fmts):
         if idx % nshards != shard: continue
         lo, hi = S.fmt_bounds(s, nw)
-        for c in range(lo, hi + 1): cases.append({'f': [s, nw, nf], 'c': c})
+        for c in range(lo, hi + 1): cases.append({'f': [s, nw, nf], 'c': c, 'build': BUILDS[(idx + c) % len(BUILDS)]})
     for _ in range((800 if tier == 'quick' else 20000) // nshards):
         nw = rng.randint(9, 52); s = rng.random() < 0.5; nf = rng.randint(-1, nw + 1); lo, hi = S.fmt_bounds(s, nw)
-        cases.append({'f': [s, nw, nf], 'c': rng.choice([lo, hi, -1 if s else 1, rng.randint(lo, hi)])})
+        cases.append({'f': [s, nw, nf], 'c': rng.choice([lo, hi, -1 if s else 1, rng.randint(lo, hi)]), 'build': rng.choice(BUILDS)})
     return cases
 
 def run_conv(cases, res):
@@ -92,14 +106,14 @@ def run_conv(cases, res):
     for c in cases:
         s, nw, nf = c['f']
         try:
-            x = A.mk(fx, np, s, nw, nf, c['c'])
-            xa = A.mk(fx, np, s, nw, nf, [c['c'], 0], shape=(2,))
+            x = build(fx, np, s, nw, nf, c['c'], how=c.get('build', 'raw'))
+            xa = build(fx, np, s, nw, nf, [c['c'], 0], shape=(2,), how=c.get('build', 'raw'))
             obs = {'get_val': lib.vals_of(x.get_val())[0], 'asfloat': lib.vals_of(x.astype(float))[0], 'float': Fraction(float(x)),
                    'asint': int(np.asarray(x.astype(int)).reshape(-1)[0]), 'int': int(x), 'bool': bool(x),
                    'raw': int(np.asarray(x.raw()).reshape(-1)[0]), 'uraw': int(np.asarray(x.uraw()).reshape(-1)[0]),
                    'arr_asint': int(np.asarray(xa.astype(int)).reshape(-1)[0]), 'arr_uraw': int(np.asarray(xa.uraw()).reshape(-1)[0]),
                    'arr_val': lib.vals_of(xa.get_val())[0]}
-            x1 = A.mk(fx, np, s, nw, nf, [c['c']], shape=(1,))         # a length-1 array converts like a scalar
+            x1 = build(fx, np, s, nw, nf, [c['c']], shape=(1,), how=c.get('build', 'raw'))         # a length-1 array converts like a scalar
             obs['len1'] = (int(x1), Fraction(float(x1)), bool(x1))
         except Exception as e:
             res.fail(c, 'C16: a conversion raised %s' % lib.exc_name(e), got=str(e)[:200]); continue
